@@ -162,7 +162,9 @@ func nonNilIsAny(err error, matches []error) bool {
 			return false
 		}
 		err = more[len(more)-1]
-		more = more[:len(more)-1]
+		// cap the slice such that later appends can't write into the
+		// Unwrap() []error result of the caller's error
+		more = more[: len(more)-1 : len(more)-1]
 	}
 }
 
